@@ -492,6 +492,9 @@ def _report(v: core.Verdict, s, l, why):
     elif why["k"] == "wf":
         missing = sorted(set(M.WF_BITS) - set(ev.get("wf", [])))
         case["missing"] = missing
+        if inf.get("undefined"):
+            case["undefined"] = inf["undefined"]
+            case["undefined_in"] = inf.get("where")
         what = f"{case['function']}({meta.get('base')}, {meta.get('kwargs') or meta.get('plan')}) returned a model that is not well formed: {missing}"
     elif why["k"] == "obs":
         case["types"] = ",".join(inf.get("types", []))
